@@ -699,16 +699,16 @@ func buildCases(c *ctx) []rCase {
 	}
 	// the limit is reached while the last iterations hang: max-duration / cancel must still end the run
 	{
-		rc := constantCase("limit-then-blocked", "6/10ms", 10*ms, 2, 2, 300*ms, "none")
+		rc := constantCase("limit-then-blocked", "6/10ms", 10*ms, 3, 2, 300*ms, "none")
 		rc.cfg.Blockers = 2
 		rc.cfg.WaitUs = 200 * ms
 		add(rc)
-		rc2 := constantCase("limit-then-blocked-cancel", "6/10ms", 10*ms, 2, 2, 5000*ms, "none")
+		rc2 := constantCase("limit-then-blocked-cancel", "6/10ms", 10*ms, 3, 2, 5000*ms, "none")
 		rc2.cfg.Blockers = 2
 		rc2.cfg.WaitUs = 200 * ms
 		rc2.cfg.CancelUs = 150 * ms
 		add(rc2)
-		ru := rCase{cfg: rCfg{Name: "limit-then-blocked-users", Mode: "users", Conc: 2, MaxIter: 2, MaxDurUs: 300 * ms, Blockers: 2, WaitUs: 200 * ms},
+		ru := rCase{cfg: rCfg{Name: "limit-then-blocked-users", Mode: "users", Conc: 3, MaxIter: 2, MaxDurUs: 300 * ms, Blockers: 2, WaitUs: 200 * ms},
 			build: func(func(api.RateFunction) api.RateFunction) (*api.Trigger, error) {
 				return users.Rate().New(users.Rate().Flags)
 			}}
